@@ -144,4 +144,64 @@ func TestC06(t *testing.T) {
 		}
 	}
 	report(t, r)
+	testC06Ragged(t)
+}
+
+// DISTINCT * and UNION over rows that do not all have the same keys (documents are not tables): two rows are the same
+// row only when they have the same keys with the same values; a key that is missing is not a key whose value is NULL.
+func testC06Ragged(t *testing.T) {
+	shapes := []map[string]any{{}, {"id": 1.0}, {"id": 1.0, "note": "n"}, {"id": 1.0, "note": nil}, {"note": "n"}, {"id": 2.0}}
+	r := &result{Property: "C06", Name: "distinct-over-rows-with-different-keys", Bound: fmt.Sprintf("all sequences of 1..3 rows over %d row shapes (empty object, missing key, explicit NULL), DISTINCT * and UNION", len(shapes))}
+	id := func(m map[string]any) string { b, _ := json.Marshal(m); return string(b) }
+	var seqs [][]int
+	var gen func(prefix []int, k int)
+	gen = func(prefix []int, k int) {
+		if len(prefix) > 0 {
+			seqs = append(seqs, append([]int{}, prefix...))
+		}
+		if k == 0 {
+			return
+		}
+		for i := range shapes {
+			gen(append(prefix, i), k-1)
+		}
+	}
+	gen(nil, 3)
+	for _, seq := range seqs {
+		rows := make([]any, len(seq))
+		var want []string
+		seen := map[string]bool{}
+		for i, si := range seq {
+			c := map[string]any{}
+			for k, v := range shapes[si] {
+				c[k] = v
+			}
+			rows[i] = c
+			if !seen[id(c)] {
+				seen[id(c)] = true
+				want = append(want, id(c))
+			}
+		}
+		for _, q := range []string{"SELECT DISTINCT * FROM t", "SELECT * FROM t UNION SELECT * FROM t"} {
+			r.Cases++
+			qq, err := genql.New(map[string]any{"t": rows}, q)
+			if err != nil {
+				r.violate("New(%s): %v", q, err)
+				continue
+			}
+			rs, err := qq.Exec()
+			if err != nil {
+				r.violate("%s on %v: %v", q, rows, err)
+				continue
+			}
+			var got []string
+			for _, o := range rs {
+				got = append(got, id(o.(map[string]any)))
+			}
+			if fmt.Sprint(got) != fmt.Sprint(want) {
+				r.violate("%s on %v: %v, reference %v", q, rows, got, want)
+			}
+		}
+	}
+	report(t, r)
 }
